@@ -441,7 +441,7 @@ pub fn skip_strategy(max_lane: usize) -> impl Strategy<Value = SkipCase> {
         })
         .prop_map(|((ty, mut shape, axis, layout), mut vals, mut mask, q, strat, pivots)| {
             // occasionally a zero-length axis other than the reduced one
-            if shape.len() >= 2 && vals.len() % 23 == 0 {
+            if shape.len() >= 2 && !vals.is_empty() && (vals[0] as i32).rem_euclid(17) == 0 {
                 let k = (axis + 1) % shape.len();
                 shape[k] = 0;
                 vals.clear();
